@@ -56,6 +56,55 @@ func (r *propRun) execLLVC() int {
 		}
 	}
 	newBL := &Baseline{Property: def.ID}
+	helpers, irs := r.runBPFUnits(solver, known, blDis, newBL)
+	if bl != nil && !r.update && r.only == "" && r.nDischarged < len(bl.Discharged)*9/10 {
+		r.broken = append(r.broken, fmt.Sprintf("obligation count dropped: %d discharged now, %d recorded", r.nDischarged, len(bl.Discharged)))
+	}
+	if r.extra == nil {
+		r.extra = map[string]interface{}{}
+	}
+	var hs []string
+	for h := range helpers {
+		hs = append(hs, h)
+	}
+	sort.Strings(hs)
+	r.extra["bpf_helpers_used"] = hs
+	r.extra["ir_sha256"] = irs
+	r.extra["assumed_helper_contracts"] = llvc.AssumedHelpers
+	r.extra["integers"] = "bit-precise: LLVM IR registers are bit-vectors, memory is byte-addressed per region"
+	if r.update {
+		sort.Strings(newBL.Discharged)
+		b, _ := json.MarshalIndent(newBL, "", " ")
+		os.MkdirAll(filepath.Dir(baselinePath(def.ID)), 0o755)
+		os.WriteFile(baselinePath(def.ID), b, 0o644)
+		fmt.Printf("baseline written: %d discharged\n", len(newBL.Discharged))
+	}
+	r.solverStats = solver.Stats
+	code := 0
+	for _, v := range r.violations {
+		suffix := ""
+		if v.NoInput {
+			suffix = " no-failing-input-found"
+		}
+		fmt.Printf("VIOLATION property=%s replay=%s obligation=%s%s\n", def.ID, v.Replay, v.Obligation, suffix)
+		code = 1
+	}
+	for _, b := range r.broken {
+		path := r.writeBroken("broken", b)
+		fmt.Printf("VIOLATION property=%s replay=%s %s no-failing-input-found\n", def.ID, path, strings.ReplaceAll(b, "\n", " "))
+		code = 1
+	}
+	if r.nDischarged == 0 {
+		fmt.Printf("VIOLATION property=%s replay=%s zero obligations discharged no-failing-input-found\n", def.ID, r.writeBroken("empty", "no obligations"))
+		code = 1
+	}
+	return code
+}
+
+// runBPFUnits verifies the eBPF programs of the property (def.BPF, kinds def.BPFKinds) and adds
+// their obligations to the run; it returns the helpers used and the IR hashes per file.
+func (r *propRun) runBPFUnits(solver *smt.Solver, known map[string]Finding, blDis map[string]bool, newBL *Baseline) (map[string]bool, map[string]string) {
+	def := r.def
 	mods := map[string]*llvc.Module{}
 	helpers := map[string]bool{}
 	irs := map[string]string{}
@@ -169,46 +218,5 @@ func (r *propRun) execLLVC() int {
 			r.records = append(r.records, rec)
 		}
 	}
-	if bl != nil && !r.update && r.only == "" && r.nDischarged < len(bl.Discharged)*9/10 {
-		r.broken = append(r.broken, fmt.Sprintf("obligation count dropped: %d discharged now, %d recorded", r.nDischarged, len(bl.Discharged)))
-	}
-	if r.extra == nil {
-		r.extra = map[string]interface{}{}
-	}
-	var hs []string
-	for h := range helpers {
-		hs = append(hs, h)
-	}
-	sort.Strings(hs)
-	r.extra["bpf_helpers_used"] = hs
-	r.extra["ir_sha256"] = irs
-	r.extra["assumed_helper_contracts"] = llvc.AssumedHelpers
-	r.extra["integers"] = "bit-precise: LLVM IR registers are bit-vectors, memory is byte-addressed per region"
-	if r.update {
-		sort.Strings(newBL.Discharged)
-		b, _ := json.MarshalIndent(newBL, "", " ")
-		os.MkdirAll(filepath.Dir(baselinePath(def.ID)), 0o755)
-		os.WriteFile(baselinePath(def.ID), b, 0o644)
-		fmt.Printf("baseline written: %d discharged\n", len(newBL.Discharged))
-	}
-	r.solverStats = solver.Stats
-	code := 0
-	for _, v := range r.violations {
-		suffix := ""
-		if v.NoInput {
-			suffix = " no-failing-input-found"
-		}
-		fmt.Printf("VIOLATION property=%s replay=%s obligation=%s%s\n", def.ID, v.Replay, v.Obligation, suffix)
-		code = 1
-	}
-	for _, b := range r.broken {
-		path := r.writeBroken("broken", b)
-		fmt.Printf("VIOLATION property=%s replay=%s %s no-failing-input-found\n", def.ID, path, strings.ReplaceAll(b, "\n", " "))
-		code = 1
-	}
-	if r.nDischarged == 0 {
-		fmt.Printf("VIOLATION property=%s replay=%s zero obligations discharged no-failing-input-found\n", def.ID, r.writeBroken("empty", "no obligations"))
-		code = 1
-	}
-	return code
+	return helpers, irs
 }
